@@ -2,8 +2,9 @@
 
 Server.run is executed symbolically from its first line (environment stubbed, see harness/serverrun.py) over n symbolic
 boards; Server.bidding_phase / Server.playing_phase are replaced by 'return an arbitrary result OR raise', the abort
-point (board k in 1..n, auction or play) being a symbolic choice and the exception kind Exception (illegal / malformed
-call or play, unheld card - they all surface as exceptions of those methods) or KeyboardInterrupt (operator).
+point (board k in 1..n, auction or play) being a symbolic choice and the exception kind one of every class those methods
+can end with (Exception: illegal / malformed call or play; ValueError: card not held, rank text; KeyError: suit text;
+IndexError: one-letter card; AssertionError; ConnectionError; KeyboardInterrupt: operator).
 After the exception has left run(), the captured output file must be closed, its text must be ONE JSON document (the
 framing is parsed by the real json module) and it must hold exactly the records of boards 1..k-1, each whole.
 The real JsonLogWriter and the real `with` / try-finally structure of run() are interpreted.
@@ -45,7 +46,8 @@ def case_abort(n, kind):
         abort_board, abort_in_play = z3.Int('abort_board'), z3.Bool('abort_in_play')
         eng.assume(z3.And(1 <= abort_board, abort_board <= n))
         state = dict(board=0, aborted=None)
-        exc = (lambda: KeyboardInterrupt()) if kind == 'KeyboardInterrupt' else (lambda: Exception('Illegal bid is detected.'))
+        import builtins
+        exc = lambda: getattr(builtins, kind)('injected abort')
 
         def deal(e, a, k):
             state['board'] += 1
@@ -128,13 +130,19 @@ def case_abort(n, kind):
 
 def cases(tier):
     ns = (1, 2) if tier != 'thorough' else (1, 2, 3)
-    return [(case_abort, f'{n} boards, abort by {k}', dict(n=n, kind=k)) for n in ns for k in ('Exception', 'KeyboardInterrupt')]
+    return [(case_abort, f'{n} boards, abort by {k}', dict(n=n, kind=k)) for n in ns for k in KINDS]
+
+
+# every exception class the auction / play of the table manager can end with: Exception (illegal call, unparseable
+# message), ValueError (card not held, rank text), KeyError (suit text), IndexError (one-letter card), AssertionError,
+# ConnectionError (an OSError: peer gone), KeyboardInterrupt (operator)
+KINDS = ('Exception', 'KeyboardInterrupt', 'ValueError', 'KeyError', 'IndexError', 'AssertionError', 'ConnectionError')
 
 
 META = dict(
     level='model_checking',
     bounds=lambda tier: {'boards': '1..2 (quick) / 1..3 (thorough) symbolic boards (dealer, vulnerability, id); every board passed out or played (symbolic contract, tricks)',
-                         'abort point': 'symbolic: board k in 1..n, in the auction or in the play; exception kinds Exception and KeyboardInterrupt',
+                         'abort point': 'symbolic: board k in 1..n, in the auction or in the play; exception kinds Exception, ValueError, KeyError, IndexError, AssertionError, ConnectionError (OSError) and KeyboardInterrupt',
                          'outside': 'the position inside the auction/play (call j, card j) is not visible to run(): the methods raise before returning, whatever j'},
     stubs=['see harness/serverrun.py: sockets, PlayerThread, Event/Barrier/Queue, open, json.dumps, time.sleep; Server.deal no-op; '
            'Server.bidding_phase / playing_phase: arbitrary result or raise; calc_score: uninterpreted integer'],
